@@ -121,7 +121,9 @@ fn judge(kind: &str, label: &str, archive: &[u8], source: &[u8], expected_chunks
         if got != want { fail("chunk sizes differ from the requested fixed-size chunking", format!("{:?} vs {:?}", &got[..got.len().min(8)], &want[..want.len().min(8)])); }
     }
     if archive.len() as u64 > hl as u64 + next { fail("the file extends beyond the end of the last stored chunk", format!("file {} bytes, header {} + stored {}", archive.len(), hl, next)); }
-    // stored bytes of raw chunks (complete files only: see DESIGN.md F4 for the CLI's unflushed temp file)
+    // ... and must not end before it either (finding K14: the CLI's unflushed temp file, fixed)
+    if (archive.len() as u64) < hl as u64 + next { fail("the file ends before the end of the last stored chunk", format!("file {} bytes, header {} + stored {}", archive.len(), hl, next)); }
+    // stored bytes of raw chunks
     if archive.len() as u64 == hl as u64 + next {
         let mut pos = 0usize; let mut done = vec![false; d.descriptors.len()];
         for &r in &d.rebuild_order {
@@ -152,25 +154,10 @@ fn sources() -> Vec<(&'static str, Vec<u8>)> {
 
 fn compress_cli(dir: &Tmp, name: &str, src: &Path, extra: &[&str]) -> Option<Vec<u8>> {
     let out = dir.path(&format!("{}.cba", name));
-    for _attempt in 0..6 {
-        let _ = std::fs::remove_file(&out);
-        let st = Command::new(BITA).arg("compress").arg("-i").arg(src).args(extra).arg(&out).output().unwrap();
-        if !st.status.success() { witness("C11", "bita compress failed", format!("{} {:?}: {}", name, extra, String::from_utf8_lossy(&st.stderr))); }
-        let bytes = std::fs::read(&out).unwrap();
-        // complete file? (header + sum of stored sizes); the CLI occasionally loses the tail of its unflushed temp file (F4)
-        if bytes.len() >= 86 {
-            let dsz = u64::from_le_bytes(bytes[6..14].try_into().unwrap()) as usize;
-            if bytes.len() >= 14 + dsz + 72 {
-                let d = decode_dict(&bytes[14..14 + dsz]);
-                let total: u64 = d.descriptors.iter().map(|c| c.archive_size).sum();
-                if bytes.len() as u64 == (14 + dsz + 72) as u64 + total { return Some(bytes); }
-                if _attempt == 5 { return Some(bytes); }
-                continue;
-            }
-        }
-        return Some(bytes);
-    }
-    None
+    let _ = std::fs::remove_file(&out);
+    let st = Command::new(BITA).arg("compress").arg("-i").arg(src).args(extra).arg(&out).output().unwrap();
+    if !st.status.success() { witness("C11", "bita compress failed", format!("{} {:?}: {}", name, extra, String::from_utf8_lossy(&st.stderr))); }
+    Some(std::fs::read(&out).unwrap())
 }
 
 #[test]
@@ -224,15 +211,12 @@ fn c11_cli_metadata_and_overwrite() {
     let out = dir.path("m.cba");
     // pre-existing, much longer output file: --force-create must not leave its tail behind
     std::fs::write(&out, vec![0x5au8; 300_000]).unwrap();
-    let mut archive = vec![];
-    for _ in 0..6 {
+    let archive;
+    {
         let st = Command::new(BITA).arg("compress").arg("-i").arg(&src).args(["--fixed-size", "4096", "--compression", "none", "--force-create",
             "--metadata-value", "greeting", "hello wörld", "--metadata-value", "empty", ""]).arg("--metadata-file").arg("blob").arg(&binf).arg(&out).output().unwrap();
         if !st.status.success() { witness("C11", "bita compress --force-create over an existing file failed", String::from_utf8_lossy(&st.stderr).into_owned()); }
         archive = std::fs::read(&out).unwrap();
-        let dsz = u64::from_le_bytes(archive[6..14].try_into().unwrap()) as usize;
-        let total: u64 = decode_dict(&archive[14..14 + dsz]).descriptors.iter().map(|c| c.archive_size).sum();
-        if archive.len() as u64 >= (14 + dsz + 72) as u64 + total { break; }     // not the short file of F4
     }
     let fixed: Vec<Vec<u8>> = source.chunks(4096).map(|c| c.to_vec()).collect();
     judge("C11", "CLI writer, --force-create over a longer existing file, with metadata", &archive, &source, Some(fixed), 64, Some([0, 0, 4096, 0, 64, 2]), (0, 0));
@@ -268,15 +252,13 @@ fn c04_cli_clone() {
     std::fs::write(&src, &source).unwrap();
     let mut cases = 0;
     for (cname, args) in [("none", vec!["--fixed-size", "2048", "--compression", "none", "--hash-length", "16"]), ("brotli", vec!["--fixed-size", "2048", "--compression", "brotli", "--compression-level", "3"])] {
-        // a complete, correct archive first
-        let mut good = None;
-        for _ in 0..8 {
-            let a = compress_cli(&dir, &format!("good-{}", cname), &src, &args).unwrap();
-            let p = dir.path("good.cba"); std::fs::write(&p, &a).unwrap();
+        // a complete, correct archive first (one attempt: an untouched archive must clone back to its source)
+        let good = compress_cli(&dir, &format!("good-{}", cname), &src, &args).unwrap();
+        {
+            let p = dir.path("good.cba"); std::fs::write(&p, &good).unwrap();
             let (ok, out) = clone_cli(&dir, &p, &[], "good");
-            if ok && out.as_deref() == Some(&source[..]) { good = Some(a); break; }
+            if !(ok && out.as_deref() == Some(&source[..])) { witness("C04", "an untouched archive written by bita compress does not clone back to its source", cname.into()); }
         }
-        let good = match good { Some(g) => g, None => witness("C04", "an untouched archive does not clone back to its source (8 attempts)", cname.into()) };
         let dsz = u64::from_le_bytes(good[6..14].try_into().unwrap()) as usize;
         let hl = 14 + dsz + 72;
         let sum = good[hl - 64..hl].iter().map(|b| format!("{:02x}", b)).collect::<String>();
